@@ -18,9 +18,40 @@ _count = [0]
 _flags = {}
 
 
+# argument tuples to step over (counterexamples that did not replay natively): {"func": ["func(a, b)", ...]}
+_SKIP = json.loads(os.environ.get("VERIF_SKIP", "{}") or "{}")
+_SKIP_ARGS = {}
+
+
+def _skip_tuples(func_name, glob):
+    if func_name not in _SKIP_ARGS:
+        out = []
+        for call in _SKIP.get(func_name, ()):
+            inside = call[call.index("(") + 1:call.rindex(")")]
+            try:
+                out.append(eval("(" + inside + ",)", dict(glob)))
+            except Exception:
+                pass
+        _SKIP_ARGS[func_name] = out
+    return _SKIP_ARGS[func_name]
+
+
 def tick(n=1):
-    """Called once at the top of every harness function: counts explored paths."""
+    """Called once at the top of every harness function: counts explored paths. Returns True when the caller's
+    arguments equal a tuple the runner asked to step over (`if tick(): return True`)."""
     _count[0] += n
+    if not _SKIP:
+        return False
+    frame = sys._getframe(1)
+    code = frame.f_code
+    tuples = _skip_tuples(code.co_name, frame.f_globals)
+    if not tuples:
+        return False
+    args = [frame.f_locals[name] for name in code.co_varnames[:code.co_argcount]]
+    for tup in tuples:
+        if len(tup) == len(args) and all((a is None) == (b is None) and a == b for a, b in zip(args, tup)):
+            return True
+    return False
 
 
 def flag(name):
